@@ -219,11 +219,21 @@ def scenario(sseed, kind, mode):
             before = {tid: (tr.status, fl_str(tr.score)) for tid, tr in o.trials.items() if tid in o.end_order}
             log2 = []
             script2 = make_script(R, 20)
-            t2 = build_tuner(kind, specs, d, cfg, script2, log2)
+            # the restarted script may ask for another budget (extend a search, or cut it short): the budget is the one configured NOW
+            cfg2 = cfg
+            if o.max_trials and R.random() < 0.4:
+                cfg2 = dict(cfg, over=dict(cfg["over"], max_trials=max(1, o.max_trials + R.choice([-2, -1, 1, 2, 3]))))
+                tags["resumed-with-another-budget"] += 1
+            t2 = build_tuner(kind, specs, d, cfg2, script2, log2)
+            n_before = len(o.trials)
+            N2 = cfg2["over"].get("max_trials", o.max_trials)
+            if o.max_trials and tuner_file and (t2.oracle.max_trials != N2 or t2.remaining_trials != N2 - len(t2.oracle.trials)):
+                raise Violation("C02", f"{kind}: search restarted with max_trials={N2} (it was {o.max_trials}; {len(t2.oracle.trials)} trials exist): the oracle's budget is "
+                                       f"{t2.oracle.max_trials} and remaining_trials is {t2.remaining_trials}, not {N2} - {len(t2.oracle.trials)}", {"tag": "restart-budget", "kind": kind})
             # C02 (restart) / C19: trials that ended in the interrupted process went through on_trial_end, which saves the tuner;
             # the restarted tuner must know them and count them against the budget
             lost = [tid for tid in o.end_order if tid not in t2.oracle.trials]
-            want_left = (o.max_trials - len(o.trials)) if o.max_trials else None
+            want_left = (N2 - len(o.trials)) if o.max_trials else None
             if o.end_order and (lost or (want_left is not None and t2.remaining_trials != want_left)):
                 what = (f"{kind}: {len(o.end_order)} trial(s) had ended when the search was interrupted (max_trials={o.max_trials}, {len(o.trials)} trials exist); "
                         f"the restarted tuner (overwrite off) knows {sorted(t2.oracle.trials)} and reports remaining_trials={t2.remaining_trials}: "
@@ -245,8 +255,9 @@ def scenario(sseed, kind, mode):
                     tr = t2.oracle.trials.get(tid)
                     if tr is None or (tr.status, fl_str(tr.score)) != b:
                         raise Violation("C19", f"finished trial {tid} changed across the restart: {b} -> {tr and (tr.status, tr.score)}", {"tag": "resume"})
-                if t2.oracle.max_trials and len(t2.oracle.trials) > t2.oracle.max_trials:
-                    raise Violation("C02", "budget exceeded after resume")
+                if o.max_trials and len(t2.oracle.trials) > max(N2, n_before):
+                    raise Violation("C02", f"{kind}: restarted with max_trials={N2} when {n_before} trials existed, the search ends with {len(t2.oracle.trials)} trials: budget exceeded after resume",
+                                    {"tag": "restart-budget", "kind": kind})
                 monitor_c19(log2, t2.oracle, how2)
             else:
                 tags["resume-without-tuner-file"] += 1
